@@ -119,6 +119,7 @@ class Body:
         self.locals = d["locals"]
         self.blocks = d["blocks"]
         self._cfg = None
+        self._cfg_pre = None
         self._defs = None
         self._dom = None
         self._edom = None
@@ -145,6 +146,22 @@ class Body:
         if self._cfg is not None:
             return self._cfg
         n = len(self.blocks)
+        # structural pre-CFG (no pruning): used by reaching_def while the pruned CFG is being built
+        succ0 = [[] for _ in range(n)]
+        for i, bl in enumerate(self.blocks):
+            if bl["cleanup"]:
+                continue
+            t = bl["term"]
+            if t["k"] == "switch":
+                succ0[i] = list(dict.fromkeys([c[1] for c in t["cases"]] + [t["otherwise"]]))
+            elif t["k"] in ("goto", "drop", "assert", "call"):
+                succ0[i] = [int(x) for x in t.get("t", []) if x != ""]
+            succ0[i] = [x for x in succ0[i] if not self.blocks[x]["cleanup"]]
+        pred0 = [[] for _ in range(n)]
+        for i, ss in enumerate(succ0):
+            for x in ss:
+                pred0[x].append(i)
+        self._cfg_pre = (succ0, pred0)
         succ = [[] for _ in range(n)]
         for i, bl in enumerate(self.blocks):
             if bl["cleanup"]:
@@ -153,6 +170,14 @@ class Body:
             k = t["k"]
             if k == "switch":
                 c = op_const(t["d"])
+                if c is None and op_local(t["d"]) is not None and len([x for x in self.defs().get(op_local(t["d"]), []) if x[0] != "pst"]) > 1:
+                    # a bool that is set on several paths (an inlined helper's result): use the definition that reaches this block
+                    try:
+                        ce = self.expr_at(t["d"], i, None, 6)
+                    except RecursionError:
+                        ce = None
+                    if isinstance(ce, tuple) and ce[0] == "const":
+                        c = ce[1]
                 if c is not None and re.fullmatch(r"\d+", c) or c in ("true", "false"):
                     v = {"true": 1, "false": 0}.get(c)
                     if v is None:
@@ -167,7 +192,7 @@ class Body:
                 else:
                     ss = [c[1] for c in t["cases"]] + [t["otherwise"]]
                     # `Err(e)?` / `None?`: Try::branch of a value just built as Err/None always breaks
-                    fixed = self._known_branch(t)
+                    fixed = self._known_branch(t, i)
                     if fixed is not None:
                         tgt = t["otherwise"]
                         for (cv, cb) in t["cases"]:
@@ -196,10 +221,12 @@ class Body:
         self._cfg = (succ, pred, reach)
         return self._cfg
 
-    def _known_branch(self, t):
+    def _known_branch(self, t, blk=None):
         """discriminant value of ControlFlow when the switch tests Try::branch(<Err(..) | None | Ok(..) | Some(..)> literal)"""
         try:
             e = self.expr(t["d"], 5)
+            if e[0] == "local" and blk is not None and self._cfg_pre is not None:
+                e = self.expr_at(t["d"], blk, None, 6)
         except RecursionError:
             return None
         if e[0] != "discr":
@@ -456,6 +483,70 @@ class Body:
             return ds[0]
         return None
 
+    def reaching_def(self, blk, idx, l):
+        """the definition of local l that reaches position idx of block blk when it can be found by walking backwards through the block
+        and then through unique-predecessor chains: ('st', blk, idx) | ('call', blk) | None"""
+        seen = 0
+        while seen < 12:
+            sts = self.blocks[blk]["st"]
+            for j in range(min(idx, len(sts)) - 1, -1, -1):
+                if sts[j]["lhs"]["l"] == l:
+                    return ("st", blk, j) if not sts[j]["lhs"]["p"] else None
+            preds = (self._cfg[1] if self._cfg is not None else (self._cfg_pre or self.cfg() and self._cfg_pre)[1])[blk]
+            if len(preds) != 1:
+                return None
+            p_ = preds[0]
+            t = self.blocks[p_]["term"]
+            if t["k"] == "call" and t["dest"]["l"] == l:
+                return ("call", p_) if not t["dest"]["p"] else None
+            blk, idx = p_, len(self.blocks[p_]["st"])
+            seen += 1
+        return None
+
+    def expr_at(self, o, blk, idx=None, depth=8, named_leaf=False):
+        """expr(), but locals with several definitions are resolved through the definition that reaches (blk, idx)"""
+        if idx is None:
+            idx = len(self.blocks[blk]["st"])
+        p = op_place(o)
+        if p is None:
+            return self.expr(o, depth, named_leaf)
+        base = self._local_at(p["l"], blk, idx, depth, named_leaf)
+        if p["p"]:
+            return ("place", base, tuple(_projkey(x) for x in p["p"]))
+        return base
+
+    def _local_at(self, l, blk, idx, depth, named_leaf):
+        if depth <= 0:
+            return ("local", l)
+        ds = [x for x in self.defs().get(l, []) if x[0] != "pst"]
+        if len(ds) <= 1:
+            return self.local_expr(l, depth, named_leaf)
+        rd = self.reaching_def(blk, idx, l)
+        if rd is None:
+            return ("local", l)
+        if rd[0] == "call":
+            t = self.blocks[rd[1]]["term"]
+            return ("call", t["f"], [self.expr_at(a, rd[1], None, depth - 1, named_leaf) for a in t["args"]], rd[1])
+        st = self.blocks[rd[1]]["st"][rd[2]]
+        rv = st["rv"]
+        k = rv["k"]
+        at = (rd[1], rd[2])
+        if k == "use":
+            return self.expr_at(rv["o"][0], at[0], at[1], depth - 1, named_leaf)
+        if k == "cast":
+            return ("cast", self.expr_at(rv["o"][0], at[0], at[1], depth - 1, named_leaf), rv.get("ty", ""))
+        if k == "bin":
+            return ("bin", rv["op"], self.expr_at(rv["o"][0], at[0], at[1], depth - 1, named_leaf), self.expr_at(rv["o"][1], at[0], at[1], depth - 1, named_leaf))
+        if k == "un":
+            return ("un", rv["op"], self.expr_at(rv["o"][0], at[0], at[1], depth - 1, named_leaf))
+        if k in ("ref", "rawptr"):
+            return ("ref", rv["mut"], self.expr_at({"copy": rv["pl"]}, at[0], at[1], depth - 1, named_leaf))
+        if k == "discr":
+            return ("discr", self.expr_at({"copy": rv["pl"]}, at[0], at[1], depth - 1, named_leaf))
+        if k == "agg":
+            return ("agg", rv["name"], rv["variant"], [self.expr_at(x, at[0], at[1], depth - 1, named_leaf) for x in rv["o"]])
+        return ("local", l)
+
     def expr(self, o, depth=6, named_leaf=False):
         """back-trace an operand to an expression tree through single-definition temporaries.
         Nodes: ('const', v, ty) ('fn', path) ('arg', n) ('local', l)  ('place', base_expr, proj)
@@ -607,11 +698,252 @@ def walk_expr(e):
             yield from walk_expr(a)
 
 
+
+# ---------------------------------------------------------------------------------------------------------------------
+# Helper inlining.  The rule engines are intraprocedural (dominance, def-use inside one body).  When a refactoring moves a
+# check or an update into a NEW private helper (`fn index_limit_reached(..) -> bool`, `fn push_link(..)`), the caller's body
+# no longer shows it.  Functions that do not exist on the reference tree (pgsa/known_fns.txt) are therefore inlined into
+# their callers before any rule runs: MIR-level substitution (callee locals and blocks renumbered, arguments copied into the
+# callee's parameter locals, `return` -> assignment of the return place to the call's destination + goto the continuation).
+# Inlining preserves behaviour, so this is a normalisation, not a rule; functions the rules know by name keep their identity.
+import copy as _copy
+import os as _os
+
+KNOWN_FNS_FILE = _os.path.join(_os.path.dirname(_os.path.abspath(__file__)), "known_fns.txt")
+INLINE_MAX_BLOCKS = 80
+
+
+def _load_known():
+    try:
+        with open(KNOWN_FNS_FILE, encoding="utf-8") as fh:
+            return {ln.rstrip("\n") for ln in fh if ln.strip() and not ln.startswith("#")}
+    except OSError:
+        return None
+
+
+def _map_place(pl, lm):
+    out = {"l": lm(pl["l"]), "p": []}
+    for x in pl["p"]:
+        if isinstance(x, dict) and "ix" in x:
+            y = dict(x)
+            y["ix"] = lm(x["ix"])
+            out["p"].append(y)
+        else:
+            out["p"].append(x)
+    return out
+
+
+def _map_operand(o, lm):
+    for k in ("copy", "move"):
+        if k in o:
+            return {k: _map_place(o[k], lm)}
+    return o
+
+
+def _map_rv(rv, lm):
+    out = dict(rv)
+    if "o" in rv:
+        out["o"] = [_map_operand(o, lm) for o in rv["o"]]
+    if "pl" in rv:
+        out["pl"] = _map_place(rv["pl"], lm)
+    return out
+
+
+def _map_term(t, lm, bm):
+    out = dict(t)
+    k = t["k"]
+    if "t" in t and isinstance(t["t"], list):
+        out["t"] = [bm(x) if isinstance(x, int) else x for x in t["t"]]
+    if k == "switch":
+        out["d"] = _map_operand(t["d"], lm)
+        out["cases"] = [[c[0], bm(c[1])] for c in t["cases"]]
+        out["otherwise"] = bm(t["otherwise"]) if isinstance(t["otherwise"], int) else t["otherwise"]
+    elif k == "call":
+        out["args"] = [_map_operand(a, lm) for a in t["args"]]
+        out["dest"] = _map_place(t["dest"], lm)
+    elif k == "drop":
+        out["pl"] = _map_place(t["pl"], lm)
+    elif k == "assert":
+        out["c"] = _map_operand(t["c"], lm)
+    return out
+
+
+def inline_body(bd, at_block, callee):
+    """inline the call terminating bd['blocks'][at_block] with the body dict `callee`"""
+    t = bd["blocks"][at_block]["term"]
+    base_l = len(bd["locals"])
+    base_b = len(bd["blocks"])
+    nloc = len(callee["locals"])
+
+    def lm(l):
+        return base_l + l
+
+    def bm(x):
+        return base_b + x
+    for lo in callee["locals"]:
+        bd["locals"].append(dict(lo))
+    cont = t["t"][0] if t.get("t") and isinstance(t["t"][0], int) else None
+    # continuation block: dest = move callee._0 ; goto cont
+    ret_blk = base_b + len(callee["blocks"])
+    for cb in callee["blocks"]:
+        nb = {"cleanup": cb["cleanup"], "st": [], "term": None}
+        for st in cb["st"]:
+            ns = dict(st)
+            ns["lhs"] = _map_place(st["lhs"], lm)
+            ns["rv"] = _map_rv(st["rv"], lm)
+            nb["st"].append(ns)
+        ct = cb["term"]
+        if ct["k"] == "return":
+            nb["term"] = {"k": "goto", "t": [ret_blk], "line": ct.get("line", 0), "mexp": ct.get("mexp", False), "mac": ct.get("mac", "")}
+        else:
+            nb["term"] = _map_term(ct, lm, bm)
+        bd["blocks"].append(nb)
+    line = t.get("line", 0)
+    rb = {"cleanup": False, "st": [{"lhs": t["dest"], "rv": {"k": "use", "o": [{"move": {"l": lm(0), "p": []}}]}, "line": line, "exp": False, "mac": ""}],
+          "term": ({"k": "goto", "t": [cont], "line": line, "mexp": False, "mac": ""} if cont is not None else {"k": "unreachable", "line": line, "mexp": False, "mac": ""})}
+    bd["blocks"].append(rb)
+    # Tail duplication: every return site of the callee gets its own copy of `dest = return value` and of the (short) decision that the
+    # caller takes on it (`switch dest`, or `Try::branch(dest)` + switch), so that the outcome of each return site is visible to dominance.
+    chain = _decision_chain(bd, cont) if cont is not None else None
+    if chain is not None:
+        sites = []
+        for k_, cb in enumerate(callee["blocks"]):
+            if cb["term"]["k"] != "return" or cb["cleanup"]:
+                continue
+            if cb["st"]:
+                sites.append(k_)
+            else:
+                # the usual shape: one empty return block, the return value is assigned in its predecessors
+                preds = [j for j, pb in enumerate(callee["blocks"]) if not pb["cleanup"] and pb["term"]["k"] == "goto" and pb["term"].get("t") == [k_]]
+                others = [j for j, pb in enumerate(callee["blocks"]) if not pb["cleanup"] and j not in preds and pb["term"]["k"] != "goto"
+                          and k_ in ([c[1] for c in pb["term"].get("cases", [])] + [pb["term"].get("otherwise")] + [x for x in pb["term"].get("t", []) if isinstance(x, int)])]
+                sites.extend(preds if preds and not others else [k_])
+        for k_ in sites:
+            pblk = bd["blocks"][base_b + k_]
+            pblk["st"].append(_copy.deepcopy(rb["st"][0]))
+            cur = pblk
+            for ci, cidx in enumerate(chain):
+                src = bd["blocks"][cidx]
+                cur["st"].extend(_copy.deepcopy(src["st"]))
+                tt = _copy.deepcopy(src["term"])
+                if ci + 1 < len(chain):
+                    # the next chain block is cloned into a fresh block
+                    nb = {"cleanup": False, "st": [], "term": None}
+                    bd["blocks"].append(nb)
+                    tt["t"] = [len(bd["blocks"]) - 1] + list(tt.get("t", [])[1:])
+                    cur["term"] = tt
+                    cur = nb
+                else:
+                    cur["term"] = tt
+    # argument copies, then jump into the callee
+    blk = bd["blocks"][at_block]
+    for i, a in enumerate(t["args"]):
+        if i + 1 <= callee["argc"]:
+            blk["st"].append({"lhs": {"l": lm(i + 1), "p": []}, "rv": {"k": "use", "o": [a]}, "line": line, "exp": False, "mac": ""})
+    blk["term"] = {"k": "goto", "t": [bm(0)], "line": line, "mexp": False, "mac": "", "inlined": callee["path"]}
+
+
+def _decision_chain(bd, cont):
+    """[cont] or [cont, next]: the continuation consists of plain copies followed by a switch, or of plain copies + a call to Try::branch whose
+    target block is (copies +) a switch.  None if the continuation does anything else (then nothing is duplicated)."""
+    def simple(blk):
+        return all(st["rv"]["k"] in ("use", "discr", "ref", "cast") and not st["lhs"]["p"] for st in blk["st"]) and len(blk["st"]) <= 4
+    b0 = bd["blocks"][cont]
+    if b0["cleanup"] or not simple(b0):
+        return None
+    t0 = b0["term"]
+    if t0["k"] == "switch":
+        return [cont]
+    if t0["k"] == "call" and isinstance(t0.get("f"), dict) and norm_path(t0["f"].get("path", "")) == "core::ops::Try::branch" and t0.get("t") and isinstance(t0["t"][0], int):
+        b1 = bd["blocks"][t0["t"][0]]
+        if not b1["cleanup"] and simple(b1) and b1["term"]["k"] == "switch":
+            return [cont, t0["t"][0]]
+    return None
+
+
+def inline_new_helpers(bodies, known, log=None):
+    """bodies: list of body dicts. Inline calls to crate-local functions whose normalised path is not in `known`."""
+    by_np = {}
+    for b in bodies:
+        if b["kind"] in ("Fn", "AssocFn"):
+            by_np.setdefault(norm_path(b["path"]), []).append(b)
+    def eligible(bd_):
+        return bd_["file"].startswith("src/") and "quickcheck" not in bd_["file"] and len(bd_["blocks"]) <= INLINE_MAX_BLOCKS
+    new = {np_: bs[0] for np_, bs in by_np.items() if np_ not in known and len(bs) == 1 and eligible(bs[0])}
+    # several new bodies with one normalised path (the same helper generated by a macro for several impls): matched by their raw def path
+    new_raw = {b_["path"]: b_ for np_, bs in by_np.items() if np_ not in known and len(bs) > 1 for b_ in bs if eligible(b_)}
+    if not new and not new_raw:
+        return 0
+    # closures defined in a new helper move along with it: they become children of every body the helper is inlined into
+    closures_of = {}
+    for b in bodies:
+        if b["kind"] == "Closure":
+            closures_of.setdefault(b["root"], []).append(b)
+    pristine = {k: _copy.deepcopy(v) for k, v in new.items()}
+    pristine_raw = {k: _copy.deepcopy(v) for k, v in new_raw.items()}
+    adopted = {}        # caller path -> [closure body dicts]
+    n = 0
+    for _round in range(3):
+        did = False
+        for b in bodies:
+            if b["kind"] not in ("Fn", "AssocFn", "Closure"):
+                continue
+            i = 0
+            while i < len(b["blocks"]) and len(b["blocks"]) < 600:
+                t = b["blocks"][i]["term"]
+                if t["k"] == "call" and isinstance(t.get("f"), dict) and t["f"].get("crate") == "petgraph":
+                    cn = norm_path(t["f"].get("resolved") or t["f"]["path"])
+                    c = pristine.get(cn) or pristine_raw.get(t["f"].get("resolved") or t["f"]["path"])
+                    if c is not None and c["path"] != b["path"] and not b["blocks"][i]["cleanup"]:
+                        inline_body(b, i, c)
+                        n += 1
+                        did = True
+                        for cl in closures_of.get(c["path"], []):
+                            adopted.setdefault(b["root"] if b["kind"] == "Closure" else b["path"], []).append(cl)
+                        if log is not None:
+                            log.append((norm_path(b["path"]), cn))
+                i += 1
+        if not did:
+            break
+    # a new helper that was inlined at every call site is gone as far as the rules are concerned
+    still = set()
+    for b in bodies:
+        for bl in b["blocks"]:
+            t = bl["term"]
+            if t["k"] == "call" and isinstance(t.get("f"), dict) and t["f"].get("crate") == "petgraph":
+                still.add(norm_path(t["f"].get("resolved") or t["f"]["path"]))
+    still_raw = set()
+    for b in bodies:
+        for bl in b["blocks"]:
+            t = bl["term"]
+            if t["k"] == "call" and isinstance(t.get("f"), dict) and t["f"].get("crate") == "petgraph":
+                still_raw.add(t["f"].get("resolved") or t["f"]["path"])
+    gone = {v["path"] for k, v in pristine.items() if k not in still} | {k for k in pristine_raw if k not in still_raw}
+    # re-root adopted closures onto (the first of) their new parents
+    extra = {}
+    for parent, cls in adopted.items():
+        for cl in cls:
+            if cl["root"] in gone and cl.get("_adopted") is None:
+                cl["root"] = parent
+                cl["_adopted"] = True
+            elif cl["root"] != parent:
+                extra.setdefault(parent, []).append(cl["path"])
+    if gone:
+        bodies[:] = [b for b in bodies if b["path"] not in gone]
+    if log is not None and extra:
+        log.append(("#extra-children", extra))
+    return n
+
+
 class Facts:
     def __init__(self, path):
         with open(path) as fh:
             d = json.load(fh)
         self.source = path
+        self.inlined = []
+        known = _load_known()
+        if known is not None:
+            inline_new_helpers(d["bodies"], known, self.inlined)
         self.bodies = [Body(b, self) for b in d["bodies"]]
         self.by_path = {}
         for b in self.bodies:
@@ -627,6 +959,13 @@ class Facts:
         for b in self.bodies:
             if b.kind == "Closure":
                 self.children[b.root].append(b)
+        for ent in self.inlined:
+            if ent[0] == "#extra-children":
+                for parent, paths in ent[1].items():
+                    for cp in paths:
+                        cb = self.by_path.get(cp)
+                        if cb is not None and cb not in self.children[parent]:
+                            self.children[parent].append(cb)
 
     def fns(self):
         return [b for b in self.bodies if b.kind in ("Fn", "AssocFn", "Closure")]
